@@ -75,6 +75,8 @@ def run(ctx):
         keys = P.call_keys(b)
         if not any(k in SINKS for _, k, _ in keys):
             continue
+        if b.name in EXEMPT:
+            continue          # init_genesis_block: before any other thread exists (checked under L1 above)
         for bid, k, t in keys:
             if k not in PROGRESS_READERS:
                 continue
